@@ -332,7 +332,7 @@ VF_SUB(bigint_wrapper, 2500, 50000) {
   unsigned nops = (unsigned)ctx.c.range(1, 12); std::ostringstream ops; ops << "a=" << S(ra) << " b=" << S(rb) << " ops:";
   std::set<std::string> kinds;
   for (unsigned i = 0; i < nops && !ctx.failed; i++) {
-    unsigned op = (unsigned)ctx.c.index(14); unsigned long u = ctx.c.coin() ? (unsigned long)ctx.c.range(0, 10) : (unsigned long)ctx.c.raw64();
+    unsigned op = (unsigned)ctx.c.index(24); unsigned long u = ctx.c.coin() ? (unsigned long)ctx.c.range(0, 10) : (unsigned long)ctx.c.raw64();
     const char *nm = "";
     switch (op) {
       case 0: nm = "+=b"; a += b; sa += sb; ra += rb; break;
@@ -352,8 +352,30 @@ VF_SUB(bigint_wrapper, 2500, 50000) {
         TMCG_Bigint r(false), sr(true); r.powm_ui(a, e, m); sr.powm_ui(sa, e, sm); Z rr; mpz_powm_ui(rr.get_mpz_t(), ra.get_mpz_t(), e, mod.get_mpz_t());
         a = r; sa = sr; ra = rr; break; }
       case 12: { nm = "swap"; std::swap(ra, rb); TMCG_Bigint t(a); a = b; b = t; TMCG_Bigint st(sa); sa = sb; sb = st; break; }
-      default: { nm = "=ui"; a = u; sa = u; ra = Z(u); break; }
+      case 13: { nm = "=ui"; a = u; sa = u; ra = Z(u); break; }
+      // operations that exist on the plain back end only: the secure object is brought along by assignment
+      case 14: { nm = "/=ui"; if (u == 0) u = 3; a /= u; ra /= Z(u); sa = a; break; }
+      case 15: { nm = "div2exp"; size_t e = (size_t)ctx.c.range(0, 130); a.div2exp(e); ra >>= e; sa = a; break; }
+      case 16: { nm = "ui_pow_ui"; unsigned long bs = (unsigned long)ctx.c.range(0, 40), ex = (unsigned long)ctx.c.range(0, 60); a.ui_pow_ui(bs, ex); mpz_ui_pow_ui(ra.get_mpz_t(), bs, ex); sa = a; break; }
+      case 17: { nm = "spowm"; Z mod = zrand_bits(ctx, (unsigned)ctx.c.range(2, 300)) | 1; if (mod < 3) mod = 3; Z mv; setv(m, sm, mv, mod); Z bs = ra % mod; if (bs == 0) bs = 1; Z g; mpz_gcd(g.get_mpz_t(), bs.get_mpz_t(), mod.get_mpz_t()); if (g != 1) bs = 1;
+        TMCG_Bigint base(bs.get_mpz_t()), r(false); r.spowm(base, b, m); Z rr; mpz_powm(rr.get_mpz_t(), bs.get_mpz_t(), rb.get_mpz_t(), mod.get_mpz_t()); a = r; sa = r; ra = rr; break; }
+      case 18: { nm = "abs"; a.abs(); sa.abs(); break; } // non-negative: unchanged on both back ends
+      case 19: { nm = "=si"; long v = (long)(u >> 1); a = v; sa = a; ra = Z(v); break; } // the secure back end refuses operator=(long) by design
+      case 20: { nm = "set_str"; unsigned base = ctx.c.coin() ? 10 : (ctx.c.coin() ? 16 : 36); std::string t = ra.get_str((int)base); a.set_str(t, base); sa = a; break; } // value unchanged
+      case 21: { nm = "stream"; std::stringstream io; io << a << std::endl; TMCG_Bigint r(false); io >> r; if (!io.good() && !io.eof()) { ctx.fail("bigint/stream-roundtrip-fails", ops.str() + " value " + S(ra)); break; } a = r; sa = r; break; } // value unchanged
+      case 22: { nm = "probab_prime"; Z cand = ctx.c.coin() ? zrand_bits(ctx, (unsigned)ctx.c.range(2, 200)) : Z((unsigned long)ctx.c.range(0, 2000)); if (ctx.c.coin()) mpz_nextprime(cand.get_mpz_t(), cand.get_mpz_t());
+        TMCG_Bigint c0(cand.get_mpz_t()), pc(false), sc(true); pc = c0; sc = c0; bool want = mpz_probab_prime_p(cand.get_mpz_t(), 40) > 0, gp = pc.probab_prime(), gs = cand > 1 ? sc.probab_prime() : want; // gcry_prime_check is specified for candidates > 1
+        if (gp != want || gs != want) { ctx.fail(std::string("bigint/probab_prime-differs/") + (gp != want ? "plain" : "secure"), ops.str() + " candidate " + S(cand) + " gmp says " + (want ? "prime" : "composite")); } break; }
+      default: { nm = "random"; // samplers of both back ends stay inside their range (the distribution is C07's business)
+        size_t bits = (size_t)ctx.c.range(1, 300); Z mod = zrand_bits(ctx, (unsigned)ctx.c.range(2, 300)) + 2; TMCG_Bigint pm(mod.get_mpz_t()), smod(true); smod = pm; unsigned which = (unsigned)ctx.c.index(7);
+        for (int sec = 0; sec < 2 && !ctx.failed; sec++) { TMCG_Bigint r(sec == 1); bool bitwise = which < 3; Z lim = bitwise ? (Z(1) << bits) : mod;
+          switch (which) { case 0: r.wrandomb(bits); break; case 1: r.srandomb(bits); break; case 2: r.ssrandomb(bits); break; case 3: r.wrandomm(sec ? smod : pm); break; case 4: r.srandomm(sec ? smod : pm); break; case 5: r.ssrandomm(sec ? smod : pm); break;
+            default: { size_t cn = (size_t)ctx.c.range(1, 4); r.ssrandomm_cache_init(pm, cn); for (size_t z = 0; z < cn + 1 && !ctx.failed; z++) { r.ssrandomm_cache(); Z v = sec ? from_secret(r) : Z(r.bigint); if (v < 0 || v >= mod) ctx.fail("bigint/random-out-of-range/ssrandomm_cache", ops.str() + " drew " + S(v) + " for modulus " + S(mod)); } r.ssrandomm_cache_done(); } }
+          Z v = sec ? from_secret(r) : Z(r.bigint); static const char *rn[] = {"wrandomb", "srandomb", "ssrandomb", "wrandomm", "srandomm", "ssrandomm", "ssrandomm_cache"};
+          if (v < 0 || v >= lim) ctx.fail(std::string("bigint/random-out-of-range/") + rn[which] + (sec ? "/secure" : "/plain"), ops.str() + " drew " + S(v) + " limit " + S(lim)); }
+        break; }
     }
+    if (ctx.failed) break;
     ops << " " << nm; kinds.insert(nm);
     Z pa(a.bigint), ps = from_secret(sa);
     if (pa != ra || ps != ra) { ctx.fail(std::string("bigint/") + (pa != ra ? "plain" : "secure") + "-backend-differs/" + nm, ops.str() + " => gmp " + S(ra) + " plain " + S(pa) + " secure " + S(ps)); break; }
@@ -361,6 +383,11 @@ VF_SUB(bigint_wrapper, 2500, 50000) {
     bool lt = ra < rb, eq = ra == rb;
     if ((a < b) != lt || (sa < sb) != lt || (a == b) != eq || (sa == sb) != eq || (a >= b) != !lt || (sa >= sb) != !lt || (a > b) != (!lt && !eq) || (sa > sb) != (!lt && !eq) || (a <= b) != (lt || eq) || (sa <= sb) != (lt || eq) || (a != b) != !eq)
     { ctx.fail("bigint/comparison-differs", ops.str() + " a=" + S(ra) + " b=" + S(rb)); break; }
+    // the overloads that take a machine word
+    { unsigned long w = ctx.c.coin() ? u : (ra.fits_ulong_p() ? ra.get_ui() : u); Z zw(w); bool l2 = ra < zw, e2 = ra == zw; long sw = (long)(w >> 1); bool e3 = ra == Z(sw);
+      if ((a < w) != l2 || (sa < w) != l2 || (a == w) != e2 || (a != w) != !e2 || (a > w) != (!l2 && !e2) || (sa > w) != (!l2 && !e2) || (a >= w) != !l2 || (sa >= w) != !l2 || (a <= w) != (l2 || e2) || (sa <= w) != (l2 || e2) || (a == sw) != e3 || (a != sw) != !e3)
+      { ctx.fail("bigint/comparison-with-machine-word-differs", ops.str() + " a=" + S(ra) + " word=" + std::to_string(w)); break; }
+      if (ra.fits_ulong_p() && (a.get_ui() != ra.get_ui() || sa.get_ui() != ra.get_ui())) { ctx.fail("bigint/get_ui-differs", ops.str() + " a=" + S(ra)); break; } }
     if (a.size(2) != mpz_sizeinbase(ra.get_mpz_t(), 2)) { ctx.fail("bigint/size-differs", ops.str()); break; }
   }
   ctx.desc << ops.str(); for (auto &k : kinds) ctx.label(k);
